@@ -127,9 +127,9 @@ class C12(Prop):
             lst = [w[:-1] + [(w[-1] + 2 * rng.randrange(2)) % 4] for w in rows[pad:nn]]
             extra = [rows[q][:-1] + [2 * rng.randrange(2)] for q in (0, 63, 64) if q < pad]
             for sub in (lst, lst[::-1] + extra, extra + lst[:2]):
-                yield {"k": "fromstab", "n": nn, "stabs": sub, "fmt": ("plist", "strings", "strlist")[bi % 3], "pkg": "py"}
+                yield {"k": "fromstab", "n": nn, "stabs": sub, "fmt": ("plist", "strings", "strlist")[bi % 3]}
             bad = [lst[0], rows[nn + pad][:-1] + [0]]          # a stabilizer and its own destabilizer: anticommuting
-            yield {"k": "fromstab", "n": nn, "stabs": bad, "fmt": "plist", "pkg": "py"}
+            yield {"k": "fromstab", "n": nn, "stabs": bad, "fmt": "plist"}
         for n in (1, 2, 3, 4, 5):
             for name in ("zero", "one", "ghz", "mixed"):
                 yield {"k": "ctor", "name": name, "n": n}
